@@ -64,15 +64,15 @@ Record ucase := { uc_in : hurl; uc_host : string; uc_rw : option rewriter;
 Definition hu s h p rp q := {| u_scheme := s; u_host := h; u_path := p; u_rawpath := rp; u_query := q |}.
 Definition ucs i h rw o e u := {| uc_in := i; uc_host := h; uc_rw := rw; uo_url := o; uo_escaped := e; uo_uri := u |}.
 
-(** the property on the observation: the scheme is the rewrite's or the
-    original; the host is forward_to.host; what the upstream decodes is what
-    the transformed path decodes to (no double encoding, C15_decoded_path); the
-    query is the original without the removed parameters *)
 (** C15-F6 on a bare query *)
 Definition uguard_F6 (names : list string) (qs : string) : bool :=
   negb (is_nil names) && negb (is_empty qs) && negb (snd (parse_query qs)) &&
   negb (String.eqb (values_encode (del_all names (fst (parse_query qs)))) (kept_settings names qs)).
 
+(** the property on the observation: the scheme is the rewrite's or the
+    original; the host is forward_to.host; what the upstream decodes is what
+    the transformed path decodes to (no double encoding, C15_decoded_path); the
+    query is the original without the removed parameters (key by key and byte for byte) *)
 Definition uprop (c : ucase) : bool :=
   let u := uc_in c in
   let o := uo_url c in
